@@ -11,10 +11,21 @@ DISPATCH = dict(sub="dispatch", mode="dispatch", family="dispatch", shards=q(2, 
                 key_fields=["k", "res", "n", "sub", "attempt", "max"])
 
 
+EGRESS = dict(sub="egress", mode="egress", family="egress", shards=q(4, 16),
+              args=lambda tier, sd, sh: ["-seed", sd * 1000 + sh, "-n", 2500 if tier == "quick" else 20000, "-redirects", 120 if tier == "quick" else 1500],
+              key_fields=["k", "raw", "s", "host"])
+
+
 def c06(prop, tier, res, replay=None):
-    return pure.check_cases(prop, tier, res, [DISPATCH], [
+    return pure.check_cases(prop, tier, res, [DISPATCH, EGRESS], [
         "float64 arithmetic of retryDelay is not modelled: Go's result is compared with the exact rational model within a relative slack of 2^-48·X + 2 ns, and the property bound is evaluated on Go's own output in exact arithmetic",
         "the attempt bound assumes lease mutations on the store succeed (as the property states); goroutine scheduling of the dispatcher is not modelled"], replay)
 
 
-TABLE = {"C06": c06}
+def c16(prop, tier, res, replay=None):
+    return pure.check_cases(prop, tier, res, [EGRESS], [
+        "URL parsing (net/url) and literal-address recognition (netip.ParseAddr) are the stdlib's: the model receives scheme/hostname/literal as Go parsed them",
+        "DNS rebinding between check and dial is outside the property (\"at the time of the check\"); redirect scenarios run against loopback httptest servers through a custom dialer"], replay)
+
+
+TABLE = {"C06": c06, "C16": c16}
